@@ -322,7 +322,7 @@ def call(entry=0, ctx=0, out=0, gap=0, dur=0, m=1 << 13):
 class C01(Property):
     id = "C01"
     title = "Circuit breaker: admission law, exact accounting, guaranteed probing"
-    quick_cases = 170      # + the fixed corpus (~50 cases, one per seeded class); the volume is in the thorough tier
+    quick_cases = 170      # + the fixed corpus (~85 cases, at least one per seeded class); the volume is in the thorough tier
     thorough_cases = 8000
     design_ref = "DESIGN.md §6/C01"
     level_text = ("Unbounded Rocq theorems over every history of calls (all entry points, ten request outcomes including the "
@@ -869,7 +869,12 @@ class C01(Property):
                                 if k == 6 and cd == 4 and cls != 0:
                                     continue
                                 calls.append([k, rej, cd, cls, code])
-            cs.append({"w": w, "wcalls": calls})
+            # one case per call site and context life: small cases shrink fast and read well
+            for k in sorted(set(c[0] for c in calls)):
+                for cd in range(5):
+                    part = [c for c in calls if c[0] == k and c[2] == cd]
+                    if part:
+                        cs.append({"w": w, "wcalls": part})
         # sqlx: every breaker-wrapped method x every error class it can meet, admitted; rejected and
         # done-context once per class with a rotating method
         calls = []
